@@ -1022,6 +1022,11 @@ func (s *scanner) ScanBytes(accept func(b byte) bool) error {
 		if err == io.EOF && !empty {
 			return nil
 		}
+		if err != nil && err != io.EOF {
+			// a latched source error leaves the buffer as it is, so waiting
+			// for it to drain would never end
+			return err
+		}
 		if s.used == 0 {
 			if err == nil {
 				err = io.EOF
